@@ -1307,6 +1307,14 @@ Proof.
   apply IH. split; [exact HW|exact Hf1].
 Qed.
 
+Lemma clone_cbs_wfr_inv n : forall s : store, inv s -> wfr (fun s' : store => inv s') (clone_cbs s n).
+Proof.
+  induction n as [|n IH]; intros s [HW HF]; cbn [clone_cbs]; [by split|].
+  destruct (cb_cases s HF) as [(f0 & -> & Hf0) | ->]; stp; [|by apply inv_unw].
+  destruct (cb_cases (set_fuse s f0) Hf0) as [(f1 & -> & Hf1) | ->]; stp; [|by apply inv_unw].
+  apply IH. split; [exact HW|exact Hf1].
+Qed.
+
 Lemma step1_main fz (m : machine) (o : op) :
   (q = true -> fz = None) -> minv m -> closures_ok keq o -> limits_ok alloc_limit m o ->
   post (stp1 fz m o).
@@ -1399,7 +1407,10 @@ Proof.
     pose proof (sorted_finish k a s script e x Hinv Hoff Hfs) as H0.
     destruct x as [ [t outs]|u|f]; cbn [wfr fst snd] in H0; [|by apply post_same|done].
     rewrite H0. apply post_set; [done|by apply inv_set_ticks|done].
-  - (* OClear *) apply post_set; [done|apply inv_clear, Hinv|done].
+  - (* OClear *)
+    pose proof (clone_cbs_wfr_inv (length (smap s)) (clear s) (inv_clear s (proj2 Hinv))) as H0.
+    destruct (clone_cbs (clear s) (length (smap s))) as [s'|u|f]; cbn [wfr] in H0;
+      [by apply post_set|by apply post_set|done].
   - (* OIntoSortedVec SMin *) destruct k; [by apply post_same|].
     pose proof (dpop_all_wfr true _ s [] Hinv (Nat.lt_succ_diag_r _)) as H0.
     unfold into_sorted_vec_dir.
